@@ -325,7 +325,8 @@ def _sim_real_check(a):
 
 def _sim_real_gen(rng):
     return {"kind": rng.choice(["heating", "cooling", "balanced"]), "scale": rng.choice([5.0e3, 2.0e4]), "months": rng.choice([12, 18, 24]), "n": rng.choice([1, 4]),
-            "pipe": rng.choice(["single", "double_parallel", "coaxial"]), "hourly": rng.random() < 0.4, "H": rng.choice([80.0, 100.0, 130.0])}
+            "pipe": rng.choice(["single", "double_parallel", "coaxial"]), "hourly": rng.random() < 0.4, "H": rng.choice([80.0, 100.0, 130.0]),
+            "ugt": rng.choice([18.3, 18.3, 18, 10])}  # whole-number ground temperatures as Python ints (what a JSON input gives)
 
 
 native(f"{G}:GHE.simulate", _sim_real_check, _sim_real_gen, None,
